@@ -456,7 +456,14 @@ _C11 = [
     M(["C11"], "clamp-one-end", TR, "line_segment_to_triangle", "point_to_triangle(segment_end, triangle_points)", "point_to_triangle(segment_start, triangle_points)", ["R-"]),
 ]
 
-_ALL = _C10 + _C11 + _C06 + _C05 + _C07 + _C14 + _C15 + _C16 + _C19 + _C20 + _C01 + _C18 + _C09 + _C08 + _C03 + _C04 + _C12 + _C13 + _C16b
+_C20b = [
+    M(["C20"], "emptyfill-invert-transform", UT, "invert_transform", "B2A[3, 3] = 1.0", "", ["R-EMPTYFILL", "invert_transform"]),
+    M(["C20"], "emptyfill-invert-transform-row", UT, "invert_transform", "B2A[3, :3] = 0.0", "B2A[3, :2] = 0.0", ["R-EMPTYFILL", "invert_transform"]),
+    M(["C20"], "emptyfill-barycentric", GE, "barycentric_coordinates_tetrahedron", "result[2] = scalar_triple_product(ap, a_to_bcd[2], a_to_bcd[0])", "result[1] = scalar_triple_product(ap, a_to_bcd[2], a_to_bcd[0])", ["R-EMPTYFILL", "barycentric_coordinates_tetrahedron"]),
+    M(["C20"], "emptyfill-com-homogeneous", FO, "compute_contact_force", "com[3] = 1.0", "", ["R-EMPTYFILL", "compute_contact_force"]),
+    M(["C20"], "emptyfill-triangles", FO, "tesselate_ordered_polygon", "triangles[:, 0] = 0", "", ["R-EMPTYFILL", "tesselate_ordered_polygon"]),
+]
+_ALL = _C20b + _C10 + _C11 + _C06 + _C05 + _C07 + _C14 + _C15 + _C16 + _C19 + _C20 + _C01 + _C18 + _C09 + _C08 + _C03 + _C04 + _C12 + _C13 + _C16b
 
 FLOORS = {"C05": 40, "C07": 14, "C14": 9, "C15": 8, "C16": 12, "C19": 14, "C20": 10, "C01": 24, "C18": 24, "C09": 24, "C08": 10, "C02": 20, "C03": 18, "C04": 12, "C12": 20, "C13": 10, "C06": 14, "C10": 12, "C11": 8}
 
